@@ -121,6 +121,10 @@ def edges(ctx, out):
             tempo = [(0, n0)] + [(t1 + k * rng.randint(1, 2000), n) for k, n in
                                                          enumerate([120000, rng.choice([156250000, 90000, 999999999]), rng.randint(1, 10**6)][: rng.randint(1, 3)])]
             tempo = sorted({t: n for t, n in tempo}.items())
+        if rng.random() < 0.15 and len(tempo) >= 2 and tempo[-1][0] < 10**8:
+            # a map whose first tempo is not at tick 0 may be refused; if it is accepted, time still follows ticks
+            shift = rng.randint(1, max(1, tempo[1][0] - 1)) if tempo[1][0] > 1 else 1
+            tempo = [(shift, tempo[0][1])] + [(t + shift if t + shift > shift else t + shift + 1, n) for t, n in tempo[1:]]
         try:
             be = C01.build_bpm_events(res, tempo)
         except (ValueError, OverflowError):
